@@ -2180,7 +2180,7 @@ struct DecWorld : World {
             return tier ? 80000 : 2400;
         return tier ? 60000 : 1600;
     }
-    int watchdog_s(const std::string &) const override { return 120; }
+    int watchdog_s(const std::string &p) const override { return p == "C18" ? 360 : 120; } // (C18 thorough decodes 4-minute streams)
     void setup(const std::string &p, int) override { build_template(p); }
     std::string rule(const std::string &p) const override
     {
